@@ -44,8 +44,11 @@ constexpr auto floor_check(T const x) noexcept -> T
             !is_finite(x) ? x
                           :
                           // signed-zero cases
-            etl::numeric_limits<T>::epsilon() > abs(x) ? x
-                                                       :
+            x == T(0) ? x
+                      :
+                      // already integral (and need not fit llint_t)
+            abs(x) >= T(1) / etl::numeric_limits<T>::epsilon() ? x
+                                                               :
                                                        // else
             floor_int(x, T(static_cast<llint_t>(x)))
     );
